@@ -1026,6 +1026,8 @@ do_main_case(int tool, int ia, int ib, int m, int longp, int replay)
 	return bad;
 }
 
+#include "c20_held_stream.h"
+
 /* ------------------------------------------------------------------ main */
 int
 main(int argc, char *argv[])
@@ -1057,6 +1059,26 @@ main(int argc, char *argv[])
 		lookup_bad[0][L] = do_lookup(0, L, 0, 0) != 0;
 		lookup_bad[1][L] = do_lookup(1, L, 0, 0) != 0;
 	}
+	if (ex.worker == 0 && !ex.cas) {
+		/* how much of the shipped data the prefix reading leaves out (C09's quantifier: prefix-free locales) */
+		EX_CTR(c_sh, "names_with_an_earlier_entry_of_their_table_as_prefix");
+		EX_CTR(c_shl, "locales_with_such_names");
+		for (int L = 1; L < nl; L++) {
+			int any = 0;
+			for (int t = 0; t < NTAB; t++) {
+				for (int i = 2; i <= tab_n[t]; i++) {
+					if (earlier_prefix(L, t, i, mloc[L].t[t][i])) {
+						++*c_sh;
+						any = 1;
+					}
+				}
+			}
+			*c_shl += (uint64_t)any;
+		}
+	}
+	ex_wd_init(1000);
+	held_baseline();
+	stream_baseline();
 
 	if (ex.cas) {
 		int a, b, c, d, e;
@@ -1067,6 +1089,23 @@ main(int argc, char *argv[])
 		if (sscanf(ex.cas, "lookup %d %d", &a, &b) == 2 && (a == 0 || a == 1) && b >= 1 && b < nl) {
 			int f = do_lookup(a, b, 0, 1);
 			return ex_replay_result(f != 0, "%s(\"%s\") from the initial state", a ? "setflocale" : "setilocale", mloc[b].name);
+		}
+		if (sscanf(ex.cas, "held %d %d", &a, &b) == 2 && a >= 1 && a < nl && b >= 0 && b < NHELD) {
+			int f = do_held_lib(a, b, 1);
+			return ex_replay_result(f != 0, "'%s' printed under --locale %s", held[b].text, mloc[a].name);
+		}
+		if (sscanf(ex.cas, "heldmain %d %d", &a, &b) == 2 && (a == 0 || a == 1) && b >= 1 && b < nl) {
+			const char *k = strrchr(ex.cas, ' ');
+			int f = do_held_main(a, b, k ? k + 1 : NULL, 1);
+			return ex_replay_result(f != 0, "%s --locale %s on held values %s", held_tools[a], mloc[b].name, k ? k + 1 : "");
+		}
+		if (sscanf(ex.cas, "stream %d %d", &a, &b) == 2 && a >= 1 && a < nl && b >= 0 && b < NSFMT) {
+			int f = do_stream_lib(a, b, 1);
+			return ex_replay_result(f != 0, "stream search under --from-locale %s, formats %s", mloc[a].name, sfmts[b].label);
+		}
+		if (sscanf(ex.cas, "streammain %d", &a) == 1 && a >= 1 && a < nl) {
+			int f = do_stream_main(a, 1);
+			return ex_replay_result(f != 0, "binaries on stdin under --from-locale %s", mloc[a].name);
 		}
 		if (!strncmp(ex.cas, "seq", 3) || !strncmp(ex.cas, "closure", 7)) {
 			int ops[12], n = 0, f;
@@ -1099,18 +1138,56 @@ main(int argc, char *argv[])
 		"8-table state; (iv) binaries dconv dadd dround dseq with --from-locale A --locale B, all ordered pairs of a locale list + none x 12 months x abbreviated/long: output equals "
 		"the fields the same tool prints numerically for the English input, spelled in B's names. ASan reports during any step are violations "
 		"(in (iv): only reports beyond those the same tool raises without locale options). "
+		"(v) held values: every shipped locale as output locale x %d values in every held representation incl. weekday slot 0 (ymcw/ywd weekday 0, time of day) and month slot 0 "
+		"(time of day, month 0, year alone) x %%a %%A %%b %%B: no signal, no ASan report, a slot >= 1 prints the locale's name; binaries dconv (dadd thorough): same exit status and "
+		"number of lines as without --locale (what a locale prints for slot 0 is open: skipped and counted). (vi) stream search: every shipped locale as input locale x every name x "
+		"%d format shapes (name first, name first + separator, after separator, after digits, after dash): dt_io_find_strpdt2 on the line and inside 'foo .. bar' gives the value "
+		"that dt_io_strpdt gives for the argument; (format, slot) pairs not found with the English names either, and names beginning with a blank, are skipped and counted; "
+		"binaries dconv (stdin, -S), dgrep, dadd against dconv's argument form for name-first formats. "
 		"Readings: names that have an earlier entry of their own table as a prefix, or are empty, are skipped for parsing (ambiguity of the table is C09's subject); "
-		"Sunday 0|7. non-trivial = pair with two different locales given (both directions set, differently)", nmloc - 1);
+		"Sunday 0|7. non-trivial = pair with two different locales given (both directions set, differently)", nmloc - 1, NHELD, NSFMT);
 	ex_meta("bound", "(0) %d locales x 2 setters; (i) %d x %d ordered pairs x 2 call orders (both tiers); (ii) all sequences of length <= %d (%d) over 8 operations "
-		"{seti, setf} x {de_DE, fr_FR, tr_TR, NULL}; (iii) closure, depth limit 10; (iv) 4 tools x %d x %d ordered pairs (%d locales + none) x 12 months x 2 name lengths = %d runs",
-		nmloc - 1, npair_loc, npair_loc, seq_maxlen, ex.thorough ? 37448 : 4680, nmainloc, nmainloc, nmainloc - 1, 4 * nmainloc * nmainloc * 24);
+		"{seti, setf} x {de_DE, fr_FR, tr_TR, NULL}; (iii) closure, depth limit 10; (iv) 4 tools x %d x %d ordered pairs (%d locales + none) x 12 months x 2 name lengths = %d runs; "
+		"(v) %d locales x %d held values x 4 specifiers (library), x 17 value groups (dconv%s); (vi) %d locales x 38 names x %d formats x 2 forms (library), "
+		"%s locales x 2 name-first formats x 4 tables x 4 stdin forms (binaries)",
+		nmloc - 1, npair_loc, npair_loc, seq_maxlen, ex.thorough ? 37448 : 4680, nmainloc, nmainloc, nmainloc - 1, 4 * nmainloc * nmainloc * 24,
+		nmloc - 1, NHELD, ex.thorough ? ", dadd" : "", nmloc - 1, NSFMT, ex.thorough ? "all" : "10");
 	ex_meta("binding", "(iv) runs the binaries <tree>/src/{dconv,dadd,dround,dseq} of the same asan build; its runs are counted as cli_binding_replays");
 
 	/* slices: 0 closure; [1, 9) sequences by first operation; [9, S0) main() runs by (tool, input locale);
 	 * [S0, S0 + nl) pairs by input locale */
 	const int S0 = 9 + 4 * nmainloc;
-	for (int s = 0; s < S0 + nl && !ex_expired(); s++) {
+	for (int s = 0; s < S0 + 2 * nl && !ex_expired(); s++) {
 		if (!ex_mine((uint64_t)s)) {
+			continue;
+		}
+		if (s >= S0 + nl) {
+			/* (v), (vi): one slice per locale */
+			int L = s - (S0 + nl), sub = ex.thorough;
+			static const char *const quick_sub[] = {"es_ES", "cs_CZ", "vi_VN", "zh_CN"};
+			if (L == 0) {
+				continue;
+			}
+			for (int i = 1; i < nmainloc; i++) {
+				sub |= main_loc[i] == L;
+			}
+			for (int i = 0; i < 4; i++) {
+				sub |= !strcmp(mloc[L].name, quick_sub[i]);
+			}
+			do_held_lib(L, -1, 0);
+			do_stream_lib(L, -1, 0);
+			do_held_main(0, L, NULL, 0);
+			if (ex.thorough) {
+				do_held_main(1, L, NULL, 0);
+			}
+			if (sub) {
+				do_stream_main(L, 0);
+			}
+			++*c_traces;
+			if (ex_want_sample()) {
+				ex_sample("--locale %s: %d held values x %%a %%A %%b %%B (library and dconv); --from-locale %s: 38 names x %d formats, argument form vs stream search",
+					  mloc[L].name, NHELD, mloc[L].name, NSFMT);
+			}
 			continue;
 		}
 		if (s == 0) {
